@@ -69,12 +69,15 @@ pub struct Spec<T> {
     pub tags: Vec<STag>,
 }
 
+pub const SPEC_MAX: usize = 8;
+
 impl<T: Copy> Spec<T> {
     pub fn new(cap: usize) -> Self {
+        // Allocated once; all later updates are in place (no reallocation, no drops).
         Self {
             cap,
-            fifo: Vec::new(),
-            tags: Vec::new(),
+            fifo: Vec::with_capacity(SPEC_MAX),
+            tags: Vec::with_capacity(SPEC_MAX),
         }
     }
     pub fn free(&self) -> usize {
@@ -82,6 +85,7 @@ impl<T: Copy> Spec<T> {
     }
     pub fn commit(&mut self, data: &[T], tags: &[STag]) {
         let base = self.fifo.len();
+        assert!(base + data.len() <= SPEC_MAX && self.tags.len() + tags.len() <= SPEC_MAX);
         for d in data {
             self.fifo.push(*d);
         }
@@ -92,24 +96,28 @@ impl<T: Copy> Spec<T> {
         }
     }
     pub fn consume(&mut self, m: usize) {
-        let mut rest = Vec::new();
-        for i in m..self.fifo.len() {
-            rest.push(self.fifo[i]);
+        let len = self.fifo.len();
+        assert!(m <= len);
+        for i in 0..(len - m) {
+            self.fifo[i] = self.fifo[i + m];
         }
-        self.fifo = rest;
-        let mut kept = Vec::new();
-        for t in self.tags.iter() {
+        self.fifo.truncate(len - m);
+        let tl = self.tags.len();
+        let mut k = 0;
+        for i in 0..tl {
+            let t = self.tags[i];
             if t.off >= m {
-                let mut t = *t;
+                let mut t = t;
                 t.off -= m;
-                kept.push(t);
+                self.tags[k] = t;
+                k += 1;
             }
         }
-        self.tags = kept;
+        self.tags.truncate(k);
     }
     /// Expected tag vector of a read window: by position, then commit order.
     pub fn expected_tags(&self) -> Vec<STag> {
-        let mut v = Vec::new();
+        let mut v = Vec::with_capacity(SPEC_MAX);
         for pos in 0..self.fifo.len() {
             for t in self.tags.iter() {
                 if t.off == pos {
@@ -178,6 +186,7 @@ pub fn observe<T: Copy + Bits>(b: &Arc<Buffer<T>>, spec: &Spec<T>) {
     assert!(acc::tag_count(b) == spec.tags.len(), "stored tag count differs from spec");
     drop(r);
     std::mem::forget(tags);
+    std::mem::forget(exp);
 }
 
 fn new_ring<T>(cap: usize) -> Arc<Buffer<T>> {
@@ -237,7 +246,7 @@ pub fn apply<T: Copy + Bits + SymVal>(
                 }
             };
             let wl = w.len();
-            let mut data = Vec::new();
+            let mut data = Vec::with_capacity(SPEC_MAX);
             {
                 // The writer may scribble over its whole window; only n are committed.
                 let s = w.slice();
@@ -249,8 +258,8 @@ pub fn apply<T: Copy + Bits + SymVal>(
                     }
                 }
             }
-            let mut st = Vec::new();
-            let mut tt = Vec::new();
+            let mut st = Vec::with_capacity(SPEC_MAX);
+            let mut tt = Vec::with_capacity(SPEC_MAX);
             for p in commit_tags {
                 let t = STag::sym(*p);
                 tt.push(t.to_tag(*p));
@@ -259,6 +268,8 @@ pub fn apply<T: Copy + Bits + SymVal>(
             w.produce(n, &tt);
             std::mem::forget(tt);
             spec.commit(&data, &st);
+            std::mem::forget(data);
+            std::mem::forget(st);
         }
         OP_CONSUME => {
             let (r, tags) = match b.clone().read_buf() {
